@@ -71,7 +71,6 @@ ASSUMPTIONS = [
     "comparison), events are limited to the smallest common feature length as documented "
     "in export.hdf5",
 ]
-MAX_ROUNDS = 8
 
 # ------------------------------------------------------------------ constants
 
@@ -583,8 +582,9 @@ def ver_lt(v, ref):
     return v is not None and v < ref
 
 
-def expected_defective(feat, spec, names, lognames, time_f4):
-    """own transcription of the documented rules of feat_defect.py"""
+def expected_defective(feat, spec, names, lognames, time_f4, emptylogs=()):
+    """own transcription of the documented rules of feat_defect.py
+    (None = the rules do not say: marker log present but empty, ...)"""
     sw, last = SW[spec["sw"]]
     sw = sw or ""
     first = sw.split("|")[0].strip()
@@ -599,6 +599,8 @@ def expected_defective(feat, spec, names, lognames, time_f4):
             return False
         return ver_lt(last, (0, 47, 6))
     if feat == "volume":
+        if "dclab_issue_141" in emptylogs:
+            return None
         if "dclab_issue_141" in lognames:
             return False
         return ver_lt(last, (0, 37, 0))
@@ -609,6 +611,8 @@ def expected_defective(feat, spec, names, lognames, time_f4):
             return base
         if first.startswith("ShapeIn"):
             siv = tuple(int(x) for x in first.split()[1].split("."))
+        elif "shapein-acquisition" in emptylogs:
+            return None
         elif "shapein-acquisition" in lognames:
             try:
                 siv = tuple(int(x) for x in first.split("."))
@@ -629,6 +633,9 @@ def brand(sw):
         chain.append(cur)
     return " | ".join(chain)
 
+
+#: calibration: largest observed |complemented mean - float64 mean| / max|x|
+CAL = {"f4": 0.0, "f8": 0.0}
 
 RECTIFY_KEYS = {"experiment:event count", "fluorescence:samples per event",
                 "fluorescence:channel count", "imaging:roi size x",
@@ -860,9 +867,7 @@ def run_layout(spec, rec, d):
         return
     rec.check(pout.exists(), f"no-output/{task}", "task returned without output file")
     compare(rec, spec, info, pin, pout, task, opts, cls, pre="", first=True)
-    if spec["second"] and cls == "multi-basin":
-        rec.skip("second-application-after-known-multi-basin-defect")
-    elif spec["second"]:
+    if spec["second"]:
         rec.cls("second-application")
         s1 = sha256(pout)
         pout2 = d / "out2.rtdc"
@@ -878,8 +883,10 @@ def compare(rec, spec, info, pin, pout, task, opts, cls, pre, first):
     cmp = Cmp(rec, pre, task)
     keep_basins = not (task == "repack" and opts["strip_basins"])
     keep_logs = not (task == "repack" and opts["strip_logs"])
+    unspec = set()    # features whose defect status the documented rules leave open
     with h5py.File(pin) as hi, h5py.File(pout) as ho:
         lognames = [k for k in hi.get("logs", {}) if hi["logs"][k].size]
+        emptylogs = [k for k in hi.get("logs", {}) if not hi["logs"][k].size]
         evi = hi["events"]
         evo = ho.get("events", {})
         in_names = list(evi.keys())
@@ -908,7 +915,7 @@ def compare(rec, spec, info, pin, pout, task, opts, cls, pre, first):
                 continue
             kind = feat_kind(nm)
             br = info["branch"].get(nm, "basinmap") if first else "task-output"
-            tag = f"{kind}/{br}"
+            tag = f"{kind}/{br}" if cls != "zero-events" else "zero-events"
             if kind == "basinmap":
                 if keep_basins:
                     if cmp.ck(nm in evo, f"events/missing/{tag}",
@@ -923,11 +930,13 @@ def compare(rec, spec, info, pin, pout, task, opts, cls, pre, first):
                 if first:
                     defect = expected_defective(
                         nm, spec, in_names, lognames,
-                        time_f4=(nm == "time" and evi[nm].dtype == np.float32))
+                        time_f4=(nm == "time" and evi[nm].dtype == np.float32),
+                        emptylogs=emptylogs)
                 else:
                     defect = False
             if defect is None:
-                rec.skip("defect-rule-unspecified-for-version-string")
+                rec.skip("defect-rule-unspecified-for-this-file")
+                unspec.add(nm)
                 continue
             if defect:
                 rec.cls("defect-marker-hit")
@@ -957,6 +966,10 @@ def compare(rec, spec, info, pin, pout, task, opts, cls, pre, first):
                             rtol = 3e-4 if evo[nm].dtype.itemsize < 8 else 1e-9
                             good = (np.isnan(got) and np.isnan(exp)) or got == exp or \
                                 abs(got - exp) <= rtol * scale
+                            if an not in evi[nm].attrs and scale and \
+                                    np.isfinite(got) and np.isfinite(exp):
+                                k = "f4" if evo[nm].dtype.itemsize < 8 else "f8"
+                                CAL[k] = max(CAL[k], abs(got - exp) / scale)
                             if an in evi[nm].attrs:
                                 continue  # copied verbatim (checked above)
                             cmp.ck(good, f"events/summary-value/{tag}",
@@ -1108,11 +1121,12 @@ def compare(rec, spec, info, pin, pout, task, opts, cls, pre, first):
     # -------------------- through dclab
     eb = True
     with dclab.new_dataset(pin) as di, dclab.new_dataset(pout) as do:
-        fi = di.features_innate
-        fo = do.features_innate
+        fi = [f for f in di.features_innate if f not in unspec]
+        fo = [f for f in do.features_innate if f not in unspec]
         if task != "condense":
             exp = [f for f in fi if keep_basins or not f.startswith("basinmap")]
-            cmp.ck(sorted(exp) == sorted(fo), f"view/innate-set/{task}",
+            cmp.ck(sorted(exp) == sorted(fo),
+                   f"view/innate-set/{task if cls != 'zero-events' else cls}",
                    lambda: f"innate features {sorted(exp)} -> {sorted(fo)}")
             cmp.ck(len(di) == len(do), f"view/length/{task}",
                    lambda: f"len {len(di)} -> {len(do)}")
@@ -1155,10 +1169,10 @@ def compare(rec, spec, info, pin, pout, task, opts, cls, pre, first):
                            f"view/config/{task}",
                            lambda: f"config [{sec}] {k}: {vi!r} -> {vo!r}")
     if task == "condense":
-        condense_oracle(rec, cmp, pin, pout, opts, cls, first)
+        condense_oracle(rec, cmp, pin, pout, opts, cls, first, unspec)
 
 
-def condense_oracle(rec, cmp, pin, pout, opts, cls, first):
+def condense_oracle(rec, cmp, pin, pout, opts, cls, first, unspec=()):
     with dclab.new_dataset(pin, enable_basins=opts["bas"]) as di, \
             dclab.new_dataset(pout) as do, h5py.File(pout) as ho:
         innate = set(di.features_innate)
@@ -1168,7 +1182,7 @@ def condense_oracle(rec, cmp, pin, pout, opts, cls, first):
         rapid = set(FEATURES_RAPID) & feats
         want = {}
         for f in sorted(feats):
-            if not dfn.scalar_feature_exists(f):
+            if not dfn.scalar_feature_exists(f) or f in unspec:
                 continue
             if f in innate:
                 want[f] = "innate"
@@ -1199,7 +1213,7 @@ def condense_oracle(rec, cmp, pin, pout, opts, cls, first):
                    lambda: f"feature {f} ({origin}): input view and condensed file "
                            f"differ, e.g. {a[:4].tolist()} vs {b[:4].tolist()}")
         for f in sorted(stored):
-            if f.startswith("basinmap"):
+            if f.startswith("basinmap") or f in unspec:
                 continue
             if not dfn.feature_exists(f):
                 continue
